@@ -203,3 +203,45 @@ Example C01_vmsteps_dispatch_nonvacuous :
   VMSteps.vm_in_scope (IInc "i") (mkSt 0 [] [[("i", vint 41)]] rs0) = true /\
   VMSteps.vm_in_scope (IInc "i") BrVMSteps.w_inc_state = false.
 Proof. vm_compute. repeat split; reflexivity. Qed.
+
+(* ---- GenRuntime: the helper functions of vm/runtime.go (fetch, slice, in, length, negate, exponent, makeRange,
+   toInt, toInt64, toFloat64, isNil, FetchFn, FetchFnNil) are REGENERATED on every run (gen/GenRuntime.v, DSL +
+   interpreter Sem/PrimRules.v; package reflect, math.Pow and `equal` of vm/helpers.go stay primitives) and
+   proved equal to the run-time helpers of the model Sem/Prim.v, one lemma per function (Bridge/BrRuntime.v).
+   The statements are `Definition .._statement : Prop` in Bridge/BrRuntime.v; nothing is imported here. ---- *)
+Require X.Bridge.BrRuntime.
+
+(* every statement and expression of the thirteen functions is inside the DSL *)
+Theorem C01_runtime_source_recognised : X.Bridge.BrRuntime.genruntime_all_recognised = true.
+Proof. exact X.Bridge.BrRuntime.genruntime_recognised. Qed.
+Print Assumptions C01_runtime_source_recognised.
+
+(* for every function environment, NumMethod oracle, loop fuel F and call depth >= 2: interpreting the
+   regenerated fetch / slice / in / length / negate / exponent / makeRange / toInt / toInt64 / toFloat64 / isNil /
+   FetchFn / FetchFnNil gives p_fetch / p_slice / p_in / p_length / p_negate / f_pow of the two to_float64 /
+   make_range / to_int / to_int64 / to_float64 / is_nil / fetch_fn (for FetchFn: what the machine observes when it
+   Calls the returned Value), for all arguments inside the model's value universe (num_ok, named_ok / not_named,
+   str_key_ok, len_ok, fn_map_ok, range size within int, F above the slice length for `in`) *)
+Theorem C01_model_runtime_is_source : X.Bridge.BrRuntime.model_runtime_is_source_statement.
+Proof. exact X.Bridge.BrRuntime.model_runtime_is_source. Qed.
+Print Assumptions C01_model_runtime_is_source.
+
+(* the one function of runtime.go that is not read is equalSequences (part of `equal`, vm/helpers.go) *)
+Theorem C01_runtime_not_read : X.gen.GenRuntime.genruntime_not_read = ("equalSequences" :: nil)%list.
+Proof. exact X.Bridge.BrRuntime.genruntime_not_read_is. Qed.
+
+(* without the carve-outs on values of declared types the statements are false of the MODEL (reflect sees the
+   underlying type of a named slice / string, Sem/Prim.v does not): three witnesses *)
+Theorem C01_runtime_length_full_statement_refuted : ~ X.Bridge.BrRuntime.length_full_statement.
+Proof. exact X.Bridge.BrRuntime.length_full_statement_refuted. Qed.
+Theorem C01_runtime_slice_full_statement_refuted : ~ X.Bridge.BrRuntime.slice_full_statement.
+Proof. exact X.Bridge.BrRuntime.slice_full_statement_refuted. Qed.
+Theorem C01_runtime_fetch_full_statement_refuted : ~ X.Bridge.BrRuntime.fetch_full_statement.
+Proof. exact X.Bridge.BrRuntime.fetch_full_statement_refuted. Qed.
+Print Assumptions C01_runtime_fetch_full_statement_refuted.
+
+(* non-vacuity: concrete runs of the regenerated code (index, nil map key, missing key, nil-safe miss through a
+   pointer, clamped slice, negative lower bound, `in` through a pointer, nil needle, range) and the hypotheses
+   of the theorem on these values *)
+Example C01_genruntime_examples : X.Bridge.BrRuntime.genruntime_examples_statement.
+Proof. exact X.Bridge.BrRuntime.genruntime_examples. Qed.
